@@ -279,13 +279,15 @@ Definition kt_enum_decls (e : renum) : outcome (list kt_decl) :=
           end;
   Ok (anon ++ [d]).
 
-(* the definitions emitted for one source item, in output order. kotlin.rs:182 write_const: todo!() *)
+(* the definitions emitted for one source item, in output order. kotlin.rs:182 write_const returns
+   Err(io::Error(Unsupported, "constants are not supported for Kotlin: cannot generate `NAME`")) (the /repo fix
+   of the todo!() at kotlin.rs:183) *)
 Definition kt_decl_of (it : ritem) : outcome (list kt_decl) :=
   match it with
   | ItEnum e => kt_enum_decls e
   | ItStruct s => do d <- kt_struct_decl s; Ok [d]
   | ItAlias a => do d <- kt_alias_decl a; Ok [d]
-  | ItConst c => Panic "kotlin.rs:183"
+  | ItConst c => Err (EConstUnsupported (original (cid c)))
   end.
 
 (* ================= layout ================= *)
